@@ -614,10 +614,13 @@ static char *(*volatile crypt_fp) (const char *, const char *) = crypt;
    version (main) so that NULL arguments reach the code under test.  */
 static char *(*volatile crypt_r_fp) (const char *, const char *, struct crypt_data *) = crypt_r;
 
+static int g_pre_errno;      /* errno the caller has before the call; -1: whatever the previous API call left */
+static int g_last_errno;
+
 static void
 do_crypt_call (void)
 {
-  errno = 0;
+  errno = g_pre_errno >= 0 ? g_pre_errno : g_last_errno;
   switch (cc.entry)
     {
     case 0: cc.ret = crypt_fp (cc.phrase, cc.setting); break;
@@ -626,6 +629,7 @@ do_crypt_call (void)
     case 3: cc.ret = crypt_ra (cc.phrase, cc.setting, cc.ra_data, cc.ra_size); break;
     }
   cc.err = errno;
+  g_last_errno = errno;
 }
 
 static struct
@@ -639,7 +643,7 @@ static struct
 static void
 do_gensalt_call (void)
 {
-  errno = 0;
+  errno = g_pre_errno >= 0 ? g_pre_errno : g_last_errno;
   switch (gc.entry)
     {
     case 0: gc.ret = crypt_gensalt_rn (gc.prefix, gc.count, gc.rbytes, gc.nrbytes, gc.out, gc.outsize); break;
@@ -647,6 +651,7 @@ do_gensalt_call (void)
     case 2: gc.ret = crypt_gensalt (gc.prefix, gc.count, gc.rbytes, gc.nrbytes); break;
     }
   gc.err = errno;
+  g_last_errno = errno;
 }
 
 static uint64_t canary_nonce = 1;
@@ -955,7 +960,7 @@ struct mtitem
 static struct mtitem mtitems[MT_MAXITEMS];
 static int n_mtitems;
 
-struct mtlog { uint64_t t0, t1; int item; };
+struct mtlog { uint64_t t0, t1; int item; int ep; char *res; };
 struct mtthread
 {
   pthread_t th; int tid; int iters; uint64_t seed;
@@ -964,6 +969,8 @@ struct mtthread
 };
 static pthread_barrier_t mt_barrier;
 static int mt_static_api;   /* positive control: use the non-reentrant API */
+static int mt_cold;         /* expectations are computed AFTER the threads ran (first use happens concurrently) */
+static int mt_only_mid = -1;  /* restrict the run to the items of one method */
 
 static uint64_t
 now_ns (void)
@@ -987,6 +994,13 @@ mt_thread (void *arg)
     {
       uint64_t r = prng_next (&s);
       int idx = (int) (r % (uint64_t) n_mtitems);
+      if (mt_only_mid >= 0)
+        {
+          int k;
+          for (k = 0; k < n_mtitems && (mtitems[idx].mid % 20) != mt_only_mid; k++)
+            idx = (idx + 1) % n_mtitems;
+          if (k == n_mtitems) break;
+        }
       struct mtitem *it = &mtitems[idx];
       int ep = (int) ((r >> 32) % 3);
       /* control mode 2: only crypt_gensalt(), whose racing writes to its
@@ -1020,6 +1034,14 @@ mt_thread (void *arg)
       g_inlib = 0;
       t->calls++;
       int bad;
+      if (mt_cold)
+        {
+          /* judged after the threads have finished */
+          if (t->nlog < t->iters)
+            t->log[t->nlog++] = (struct mtlog) { t0, t1, idx, ep, res ? strdup (res) : 0 };
+          free (tofree);
+          continue;
+        }
       if (it->os_entropy)
         bad = !res || (it->prefix && strncmp (res, it->prefix, strlen (it->prefix)));
       else if (!it->expect) bad = res != 0;
@@ -1030,7 +1052,7 @@ mt_thread (void *arg)
             snprintf (t->firstbad, sizeof t->firstbad, "item=%d ep=%d got=%.100s", idx, ep, res ? res : "(null)");
           t->mism++;
         }
-      if (t->nlog < t->iters) t->log[t->nlog++] = (struct mtlog) { t0, t1, idx };
+      if (t->nlog < t->iters) t->log[t->nlog++] = (struct mtlog) { t0, t1, idx, ep, 0 };
       free (tofree);
     }
   free (ra);
@@ -1052,10 +1074,14 @@ cmd_mtadd (int argc, char **argv)
       it->kind = 0;
       it->phrase = exact_string (a, al);
       it->setting = exact_string (b, bl);
-      struct crypt_data *cd = calloc (1, sizeof *cd);
-      char *r = crypt_rn (it->phrase, it->setting, cd, (int) sizeof *cd);
-      it->expect = r ? strdup (r) : 0;
-      free (cd); free (a); free (b);
+      if (!mt_cold)
+        {
+          struct crypt_data *cd = calloc (1, sizeof *cd);
+          char *r = crypt_rn (it->phrase, it->setting, cd, (int) sizeof *cd);
+          it->expect = r ? strdup (r) : 0;
+          free (cd);
+        }
+      free (a); free (b);
     }
   else
     {
@@ -1067,9 +1093,12 @@ cmd_mtadd (int argc, char **argv)
       long bl = hexdecode (argv[5], &b);
       if (bl < 0) { it->rbytes = 0; it->nrbytes = 0; it->os_entropy = 1; }
       else { it->rbytes = malloc ((size_t) bl + 1); memcpy (it->rbytes, b, (size_t) bl); it->nrbytes = (int) bl; }
-      char buf[CRYPT_GENSALT_OUTPUT_SIZE];
-      char *r = crypt_gensalt_rn (it->prefix, it->count, it->rbytes, it->nrbytes, buf, (int) sizeof buf);
-      it->expect = r ? strdup (r) : 0;
+      if (!mt_cold)
+        {
+          char buf[CRYPT_GENSALT_OUTPUT_SIZE];
+          char *r = crypt_gensalt_rn (it->prefix, it->count, it->rbytes, it->nrbytes, buf, (int) sizeof buf);
+          it->expect = r ? strdup (r) : 0;
+        }
       free (a); free (b);
     }
   n_mtitems++;
@@ -1080,11 +1109,12 @@ cmd_mtadd (int argc, char **argv)
 static void
 cmd_mt (int argc, char **argv)
 {
-  /* mt <threads> <iters> <seed> <static-api 0|1> */
+  /* mt <threads> <iters> <seed> <static-api 0|1|2> [only-mid|-1] */
   if (argc < 5 || !n_mtitems) { out_printf ("err mt"); return; }
   int nt = atoi (argv[1]), iters = atoi (argv[2]);
   uint64_t seed = strtoull (argv[3], 0, 0);
   mt_static_api = atoi (argv[4]);
+  mt_only_mid = argc >= 6 ? atoi (argv[5]) : -1;
   if (nt < 1 || nt > 64) { out_printf ("err threads"); return; }
   struct mtthread *th = calloc ((size_t) nt, sizeof *th);
   pthread_barrier_init (&mt_barrier, 0, (unsigned) nt);
@@ -1098,6 +1128,44 @@ cmd_mt (int argc, char **argv)
   for (int i = 0; i < nt; i++) pthread_join (th[i].th, 0);
   pthread_barrier_destroy (&mt_barrier);
   char first[256] = "";
+  if (mt_cold)
+    {
+      /* now, single-threaded, compute what each call should have returned */
+      for (int k = 0; k < n_mtitems; k++)
+        {
+          struct mtitem *it = &mtitems[k];
+          if (it->kind == 0)
+            {
+              struct crypt_data *cd = calloc (1, sizeof *cd);
+              char *r = crypt_rn (it->phrase, it->setting, cd, (int) sizeof *cd);
+              it->expect = r ? strdup (r) : 0;
+              free (cd);
+            }
+          else
+            {
+              char buf[CRYPT_GENSALT_OUTPUT_SIZE];
+              char *r = crypt_gensalt_rn (it->prefix, it->count, it->rbytes, it->nrbytes, buf, (int) sizeof buf);
+              it->expect = r ? strdup (r) : 0;
+            }
+        }
+      for (int i = 0; i < nt; i++)
+        for (int j = 0; j < th[i].nlog; j++)
+          {
+            struct mtlog *l = &th[i].log[j];
+            struct mtitem *it = &mtitems[l->item];
+            int bad;
+            if (it->os_entropy) bad = !l->res || (it->prefix && strncmp (l->res, it->prefix, strlen (it->prefix)));
+            else if (!it->expect) bad = l->res != 0;
+            else bad = !l->res || strcmp (l->res, it->expect);
+            if (bad)
+              {
+                if (!th[i].mism)
+                  snprintf (th[i].firstbad, sizeof th[i].firstbad, "cold item=%d ep=%d got=%.100s", l->item, l->ep, l->res ? l->res : "(null)");
+                th[i].mism++;
+              }
+            free (l->res);
+          }
+    }
   for (int i = 0; i < nt; i++)
     {
       if (th[i].mism && !first[0]) snprintf (first, sizeof first, "%s", th[i].firstbad);
@@ -1340,6 +1408,11 @@ handle (char *line)
       free (b);
       out_printf ("ok");
     }
+  else if (!strcmp (c, "preerrno") && argc >= 2)
+    {
+      g_pre_errno = atoi (argv[1]);
+      out_printf ("ok");
+    }
   else if (!strcmp (c, "scan") && argc >= 2)
     {
       scan_on = atoi (argv[1]);
@@ -1380,6 +1453,11 @@ handle (char *line)
 #ifdef VW_SO
   else if (!strcmp (c, "compat")) cmd_compat (argc, argv);
 #endif
+  else if (!strcmp (c, "mtcold") && argc >= 2)
+    {
+      mt_cold = atoi (argv[1]);
+      out_printf ("ok");
+    }
   else if (!strcmp (c, "mtadd")) cmd_mtadd (argc, argv);
   else if (!strcmp (c, "mt")) cmd_mt (argc, argv);
   else if (!strcmp (c, "info"))
